@@ -103,6 +103,8 @@ func c20BigLines() []string {
 		l = append(l, fmt.Sprintf("&manyns.example.com,192.0.2.%d,ns%02d.manyns.example.com,300", 10+i, i))
 	}
 	l = append(l, "+single.example.com,192.0.2.7,300")
+	// a name whose answer depends on the client's address: clients at 127.0.0.2 are in location "lo" of map "vw"
+	l = append(l, "Mview.example.com,\\166\\167", "%\\154\\157,127.0.0.2/32,\\166\\167", "+view.example.com,192.0.2.200,300,,\\154\\157", "+view.example.com,192.0.2.201,300", "'view.example.com,for everybody,300", "'view.example.com,for lo,300,,\\154\\157")
 	l = append(l, "+a.whoami.example.com,192.0.2.77,300", "'a.whoami.example.com,below the whoami domain,300", "+b.a.whoami.example.com,192.0.2.78,300", "+xwhoami.example.com,192.0.2.79,300")
 	for i := 0; i < 6; i++ {
 		l = append(l, fmt.Sprintf("+wrr.example.com,192.0.2.%d,300", 100+i), fmt.Sprintf("+wrr.example.com,2001:db8::%d,300", 100+i))
@@ -164,12 +166,35 @@ func c20Exchange(addr string, tcp bool, q *dns.Msg) (m *dns.Msg, n int, err erro
 	return
 }
 
+// c20ExchangeFrom is c20Exchange with the client bound to the given local address.
+func c20ExchangeFrom(addr string, tcp bool, q *dns.Msg, local string) (m *dns.Msg, n int, err error) {
+	for attempt := 0; attempt < 3; attempt++ {
+		m, n, err = c20ExchangeOnceFrom(addr, tcp, q, local)
+		var ne net.Error
+		if err == nil || !errors.As(err, &ne) || !ne.Timeout() {
+			return
+		}
+	}
+	return
+}
+
 func c20ExchangeOnce(addr string, tcp bool, q *dns.Msg) (*dns.Msg, int, error) {
+	return c20ExchangeOnceFrom(addr, tcp, q, "")
+}
+
+func c20ExchangeOnceFrom(addr string, tcp bool, q *dns.Msg, local string) (*dns.Msg, int, error) {
 	netw := "udp"
 	if tcp {
 		netw = "tcp"
 	}
 	c := &dns.Client{Net: netw, Timeout: 10 * time.Second}
+	if local != "" {
+		if tcp {
+			c.Dialer = &net.Dialer{LocalAddr: &net.TCPAddr{IP: net.ParseIP(local)}, Timeout: 10 * time.Second}
+		} else {
+			c.Dialer = &net.Dialer{LocalAddr: &net.UDPAddr{IP: net.ParseIP(local)}, Timeout: 10 * time.Second}
+		}
+	}
 	conn, err := c.Dial(addr)
 	if err != nil {
 		return nil, 0, err
@@ -424,6 +449,31 @@ func c20Worker(args []string) int {
 			}
 		}
 	}
+	// the client's own address decides the view, over UDP and over TCP alike: asked from 127.0.0.2 (the listener is
+	// on 127.0.0.1) the reply must be what the bare handler gives a client at 127.0.0.2
+	if cfg.IP == "127.0.0.1" {
+		for _, tcp := range []bool{false, true} {
+			for _, t := range []uint16{dns.TypeTXT, dns.TypeA} {
+				q := harness.MakeQuery("view.example.com.", t, 93)
+				got, _, err := c20ExchangeFrom(addr, tcp, q.Copy(), "127.0.0.2")
+				sum.Exchanges++
+				if err != nil {
+					fail("view query from 127.0.0.2 (tcp=%v): no reply: %v", tcp, err)
+					continue
+				}
+				res := ref.Serve(q.Copy(), harness.NewWriter("127.0.0.2", tcp), cfg.MaxAns)
+				var want *dns.Msg
+				if res.Wire != nil {
+					want = new(dns.Msg)
+					want.Unpack(res.Wire)
+				}
+				if a, bb := c20Canon(got), c20Canon(want); a != bb {
+					fail("client at 127.0.0.2, listener on 127.0.0.1, tcp=%v: answer over the wire differs from the bare handler's for that client:\n--- wire\n%s\n--- handler\n%s", tcp, a, bb)
+				}
+				sum.Counts["queries_from_another_source_address"]++
+			}
+		}
+	}
 	// oversized answers: truncated over UDP, complete over TCP
 	for _, bq := range []struct {
 		name string
@@ -517,7 +567,7 @@ func oneLine(m *dns.Msg) string {
 }
 
 func runC20(r *report.Run) {
-	r.SetRule("a real fbserver.Server on a loopback port (UDP+TCP) per configuration {backend x whoami domain set/unset x refuse-any on/off x max-answer 1/3/8 x 127.0.0.1/::1, plus servers bound to two addresses with different max-answer settings, two of them with the response cache on (the larger max-answer is asked first)}, race-detector build, child process each; generated queries (names of a generated file, standard and ANY types, one in five with a class other than IN, no EDNS / 512 / 1232 / 4096, with and without ECS) sent with a DNS client over UDP and TCP; every reply is compared canonically with the bare FBDNSDB handler on the same database, remote address and max-answer (addresses reduced to owner+type); oversized answers (40 TXT / 40 NS with glue, also asked with a client-subnet option) must come back with TC over UDP within the advertised size (actual datagram length; a truncated reply has to fit too) and complete over TCP; ANY with refusal must be exactly the synthesized HINFO; whoami-domain queries (any letter case) must be answered by the whoami handler, names below and next to the whoami domain by the database; question-less messages (QDCOUNT=0, and bare headers claiming QDCOUNT=1 with and without ARCOUNT=1, which the DNS library lets through to the front handlers) must get a failure rcode and the server must keep answering; shutdown is performed under load. non-trivial = configuration whose exchanges include a truncated reply and a TCP reply; distinct by configuration")
+	r.SetRule("a real fbserver.Server on a loopback port (UDP+TCP) per configuration {backend x whoami domain set/unset x refuse-any on/off x max-answer 1/3/8 x 127.0.0.1/::1, plus servers bound to two addresses with different max-answer settings, two of them with the response cache on (the larger max-answer is asked first)}, race-detector build, child process each; generated queries (names of a generated file, standard and ANY types, one in five with a class other than IN, no EDNS / 512 / 1232 / 4096, with and without ECS) sent with a DNS client over UDP and TCP; every reply is compared canonically with the bare FBDNSDB handler on the same database, remote address and max-answer (addresses reduced to owner+type); oversized answers (40 TXT / 40 NS with glue, also asked with a client-subnet option) must come back with TC over UDP within the advertised size (actual datagram length; a truncated reply has to fit too) and complete over TCP; ANY with refusal must be exactly the synthesized HINFO; a name whose answer depends on the client's address is asked from 127.0.0.2 while the listener is on 127.0.0.1, over UDP and TCP, and compared with the bare handler's answer for a client at 127.0.0.2; whoami-domain queries (any letter case) must be answered by the whoami handler, names below and next to the whoami domain by the database; question-less messages (QDCOUNT=0, and bare headers claiming QDCOUNT=1 with and without ARCOUNT=1, which the DNS library lets through to the front handlers) must get a failure rcode and the server must keep answering; shutdown is performed under load. non-trivial = configuration whose exchanges include a truncated reply and a TCP reply; distinct by configuration")
 	r.Assume("loopback only; the harness picks a port free for UDP and TCP and retries on bind failure")
 	var cfgs []c20Config
 	i := 0
